@@ -29,7 +29,7 @@ CLAIM = {
             "every run. For the rest of the compiler the property is explored: every generated program and near-miss mutant is "
             "compiled, the written Go is parsed and type-checked with go/types, a sample is built with the Go toolchain.",
     "note": "Modelled, not verified: compileListComprehensionExpr / compileErrWrapExpr output shapes. The property is known "
-            "to FAIL for whole classes of checks that only the Go compiler performs (unused variables and labels, missing "
+            "to FAIL for whole classes of checks that only the Go compiler performs (unused variables, missing "
             "return, break/continue placement, duplicate methods/params/map keys, constant index bounds, untyped nil, unused "
             "results, capture of a user variable named _gop_ret, func without body, mixed map literal): listed findings with "
             "deterministic witnesses; the seeded random part only generates programs that avoid them.",
@@ -38,6 +38,7 @@ CLAIM = {
 WITNESSES = {
     "unused-var": "func f() {\n\tx := 1\n}\nf()\n",
     "unused-var-multi-assign": "n, bb := 1, true\nprintln n\n",
+    # repaired in /repo 3907ee6 (now `for range xs`): kept as regression inputs, no longer listed findings
     "blank-forin": "xs := [1, 2]\nfor _ <- xs {\n\tprintln 1\n}\n",
     "blank-comprehension": "xs := [1, 2]\nprintln [1 for _ <- xs]\n",
     "comprehension-unused-var": "xs := [1, 2]\nprintln [0 for x <- xs]\n",
@@ -93,7 +94,7 @@ def run(ctx):
 
     # ---------------- B: shape K-diff
     tg = g9gen.TermGen(ctx.rng)
-    nterms = ctx.n(500, 30000)
+    nterms = ctx.n(1000, 30000)
     terms = [tg.term() for _ in range(nterms)]
     rc, mout = ctx.run([model], input="\n".join(t[1][0] for t in terms) + "\n")
     mlines = mout.splitlines()
@@ -160,8 +161,8 @@ def run(ctx):
     for bid, src in bases:
         cases.append(("base:" + bid, [{"name": "main.xgo", "src": src}], "base"))
     # seeded valid programs
-    nvalid = ctx.n(60, 3000)
-    nbuild = ctx.n(6, 100)
+    nvalid = ctx.n(120, 3000)
+    nbuild = ctx.n(10, 100)
     for i in range(nvalid):
         if i % 3 == 0:
             src, _ = g9prog.go_program(ctx.rng)
@@ -226,7 +227,7 @@ def run(ctx):
                    "%d named witnesses of known classes + %d deterministic near-miss mutants (fixed stream over %d fixed bases: corpus/C06 and "
                    "single-file /repo corpus packages) + the bases + %d seeded valid programs (1/3 Go subset, 2/3 XGo sugar; %d also built with "
                    "`go build`); non-trivial = distinct package that reached the compiler (cl verdict ok or err). The seeded part does NOT "
-                   "generate: unused variables/labels, blank or unused comprehension variables, missing returns, misplaced break/continue/"
+                   "generate: unused variables/labels, unused comprehension variables, missing returns, misplaced break/continue/"
                    "fallthrough, duplicate methods/params/keys, constant out-of-range indexes, untyped nil, unused results, identifiers "
                    "_gop_ret/_gop_err, bodiless funcs, mixed map literals (known findings, deterministic witnesses only)."
                    % (nterms, ", ".join("%s=%d" % kv for kv in sorted(tg.shape.items())), len(cases), len(WITNESSES), ndet, len(bases), nvalid, len(built)),
